@@ -232,7 +232,10 @@ func (SymAccount) GetModuleAccountAndPermissions(ctx sdk.Context, moduleName str
 	panic("unsupported")
 }
 func (SymAccount) GetModuleAccount(ctx sdk.Context, moduleName string) authtypes.ModuleAccountI {
-	panic("unsupported")
+	if !sym.ModuleRegistered(moduleName) {
+		return nil
+	}
+	return authtypes.NewEmptyModuleAccount(moduleName)
 }
 func (SymAccount) SetModuleAccount(ctx sdk.Context, macc authtypes.ModuleAccountI) {}
 
